@@ -1,5 +1,6 @@
 CONSTANTS
   MaxMut = 2
+  MaxDefects = 1
 SPECIFICATION Spec
 INVARIANTS Safe ClassifyOK OnlySharingLeaks Reveal
 CHECK_DEADLOCK FALSE
